@@ -68,6 +68,15 @@ def main():
                 res[c] = "inconclusive (exit %d)" % v["rc"]
         meta["origin"] = "blind sub-agent: given only the property text and a scratch worktree"
         meta["verified_by_me"] = "tools/verify_seeded.sh: patch applies to /repo HEAD, builds with and without the verif tag, pinned suite passes with the patch, demo fails with the patch and passes without"
+        prev = meta.get("checks_run", {}) if d.startswith(os.path.join(VERIF, "seeded")) else {}
+        merged = dict(prev)
+        for c, v in res.items():
+            pv = prev.get(c)
+            if pv and pv != v and not pv.startswith(v) and "after the check was strengthened" not in pv:
+                merged[c] = "%s (after the check was strengthened; first run: %s)" % (v, pv.split(" (")[0])
+            elif not pv:
+                merged[c] = v
+        res = merged
         meta["checks_run"] = res
         json.dump(meta, open(os.path.join(dst, "meta.json"), "w"), indent=1)
         print("imported", os.path.basename(dst), res)
